@@ -37,6 +37,10 @@ def point(tag):
 
 
 class Execution(object):
+    """One execution under one schedule.  The scheduling decision is taken by whichever thread holds the baton
+    (at a point, or when its body ends), so continuing the same thread costs no OS thread switch at all; only a
+    real switch hands the baton over through the per-thread semaphores."""
+
     def __init__(self, bodies, prefix, expect=None):
         self.bodies = bodies
         self.prefix = prefix
@@ -50,10 +54,34 @@ class Execution(object):
         self.choices = []             # index into the enabled list at each decision
         self.enabled_at = []          # (enabled list, last) at each decision
         self.trace_len_at = []        # len(trace) when decision i was taken
+        self.error = None             # harness error seen inside a thread (raised by go())
+
+    def _decide(self, last):
+        """Next thread to run; called by the thread that holds the baton (or by go() for the first decision)."""
+        n = len(self.bodies)
+        enabled = [i for i in range(n) if not self.done[i]]
+        if not enabled:
+            return None
+        if last in enabled:
+            enabled = [last] + [i for i in enabled if i != last]
+        k = len(self.choices)
+        c = 0
+        if self.error is None and k < len(self.prefix):
+            c = self.prefix[k]
+            if c >= len(enabled):
+                self.error = 'choice %d out of range at decision %d (enabled %r)' % (c, k, enabled)
+                c = 0
+        self.enabled_at.append((enabled, last))
+        self.choices.append(c)
+        self.trace_len_at.append(len(self.trace))
+        return enabled[c]
 
     def _point(self, tid, tag):
         self.trace.append((tid, tag))
-        self.main.release()
+        nxt = self._decide(tid)
+        if nxt == tid:
+            return
+        self.sem[nxt].release()
         self.sem[tid].acquire()
 
     def _run(self, tid):
@@ -63,7 +91,11 @@ class Execution(object):
         except BaseException as e:     # a body's failure is an observation, not a harness error
             self.res[tid] = ('exc', type(e).__name__, str(e)[:300])
         self.done[tid] = True
-        self.main.release()
+        nxt = self._decide(tid)
+        if nxt is None:
+            self.main.release()
+        else:
+            self.sem[nxt].release()
 
     def go(self):
         _CUR[0] = self
@@ -76,51 +108,20 @@ class Execution(object):
             th.daemon = True
             th.start()
             ths.append(th)
-        last = None
-        k = 0
-        try:
-            while not all(self.done):
-                enabled = [i for i in range(n) if not self.done[i]]
-                if last in enabled:
-                    enabled = [last] + [i for i in enabled if i != last]
-                if k < len(self.prefix):
-                    c = self.prefix[k]
-                    if c >= len(enabled):
-                        raise Divergence('choice %d out of range at decision %d (enabled %r)'
-                                         % (c, k, enabled))
-                else:
-                    c = 0
-                tid = enabled[c]
-                self.enabled_at.append((enabled, last))
-                self.choices.append(c)
-                self.trace_len_at.append(len(self.trace))
-                k += 1
-                last = tid
-                self.sem[tid].release()
-                self.main.acquire()
-        except Divergence:
-            # let the remaining threads run to completion sequentially so nothing is left blocked
-            self._drain()
-            _CUR[0] = None
-            raise
+        first = self._decide(None)
+        self.sem[first].release()
+        self.main.acquire()
         for th in ths:
             th.join()
         _CUR[0] = None
+        if self.error is not None:
+            raise Divergence(self.error)
         if self.expect is not None:
             m = min(len(self.expect), len(self.trace))
             if self.trace[:m] != self.expect[:m]:
                 raise Divergence('replayed prefix diverged: expected %r got %r'
                                  % (self.expect[:m][-6:], self.trace[:m][-6:]))
         return self
-
-    def _drain(self):
-        n = len(self.bodies)
-        while not all(self.done):
-            for i in range(n):
-                if not self.done[i]:
-                    self.sem[i].release()
-                    self.main.acquire()
-                    break
 
     def preemptions(self):
         p = 0
